@@ -4,12 +4,14 @@ import Proofs.Lemmas.Run
 import Proofs.Lemmas.SortTie
 import Proofs.Lemmas.Reduce
 import Proofs.Lemmas.Stack
+import Proofs.Lemmas.Shared
 import Proofs.C20Sites
 import Generated.C20MapRanges
 import Generated.C20PkgState
 import Generated.C20Resets
 import Generated.C20Sorts
 import Generated.C20Stacks
+import Generated.C20Shared
 /-!
 # C20 — sequential programs are deterministic and leave nothing behind for the next VM
 
@@ -20,6 +22,8 @@ Property theorems only.
 * Order-independence patterns — generic theorems over *any permutation* of the entries of a Go
   map (the adversary is the runtime's map iterator), and two negative ones.
 * `Model.Run` — a run as an interaction tree over the process-wide cells; reset-before-read.
+* `Model.Shared` — the error object a raise hands out (position filled once, frames appended) under
+  per-raise and process-wide allocation; `Generated.C20Shared` — package-level references handed out.
 * `Generated.C20MapRanges` / `Generated.C20PkgState` — regenerated from the source on every run;
   `C20Sites` — the hand-written (trusted) classification; the obligations below are by `decide`.
 
@@ -30,6 +34,7 @@ interpreter independently of all of this.
 namespace C20
 open Model.OMap Proofs.OMap Proofs.Pattern Model.Run Proofs.Run Model.Sites Model.SortKeys Proofs.SortTie Model.Reduce Proofs.Reduce
 open Model.Stack Proofs.Lemmas.Stack
+open Model.Shared Proofs.Lemmas.Shared
 
 /-! ## (i) the ordered property store -/
 
@@ -657,6 +662,96 @@ theorem C20_ob_end_flush_sentinel_counterexample :
   intro hall
   have := hall [seededFlush] (by intro o ho; simp only [List.mem_singleton] at ho; rw [ho]; exact List.mem_cons_self)
   revert this
+  decide
+
+/-! ## (viii) a raised error is a mutable object: fresh per raise, never process-wide (round 8) -/
+
+/-- **Obligation (regenerated every run): no mutable reference is handed out of a package-level
+variable unaccounted for.** Every package-level variable of the linked packages that holds a reference
+(pointer, or interface initialised with a pointer — through its constructor if need be) to a struct
+some of whose fields are assigned anywhere in the linked packages, and that is used as a value
+(returned, passed, stored), is either a classified cell whose discipline speaks about its content
+(reset per run, out of scope, or a listed leak) or argued in `C20Sites.sharedArgued`; no argued entry is
+stale; the translator could resolve every initialiser. An error value hoisted to package level
+(`var errX = data.NewErrorThrow(…)` … `return nil, errX`) makes this fail: `ThrowValue.StackFrames`
+and `Error.From` are assigned while it unwinds. -/
+theorem C20_shared_references_classified :
+    C20Sites.badShared C20Sites.cells C20Sites.KnownCells C20Sites.sharedArgued Generated.C20Shared.refs = [] ∧
+    C20Sites.staleShared C20Sites.sharedArgued Generated.C20Shared.refs = [] ∧
+    Generated.C20Shared.shape = [] := by
+  decide
+
+/-- **A fresh object per raise: what a program's errors show does not depend on the history.** For
+every history of raises `h` (any programs, any VMs, caught or not — any steps) and every program `b`:
+each raise of `b` shows exactly its own first offered position and its own frames. -/
+theorem C20_error_fresh_per_raise_history_independent {P F : Type} (h b : List (List (Step P F))) :
+    shows .perRaise h b = shows .perRaise [] b ∧
+    shows .perRaise h b = b.map (fun r => (⟨firstFill r, pushes r⟩ : ErrObj P F)) := by
+  have key : ∀ h : List (List (Step P F)), shows .perRaise h b = b.map (fun r => unwind r ErrObj.fresh) := by
+    intro h
+    rw [shows_eq, runRaises_perRaise]
+  refine ⟨by rw [key h, key []], ?_⟩
+  rw [key h]
+  apply List.map_congr_left
+  intro r _
+  have hp := unwind_pos r (ErrObj.fresh : ErrObj P F)
+  have hf := unwind_frames r (ErrObj.fresh : ErrObj P F)
+  simp only [ErrObj.fresh, List.nil_append] at hp hf
+  cases hu : unwind r (⟨none, []⟩ : ErrObj P F) with
+  | mk p f =>
+    simp only [ErrObj.fresh, hu] at hp hf ⊢
+    simp [hp, hf]
+
+/-- **One object for the whole process: the first raise of the later program shows the history.** Its
+position is the first position ANY raise of the process was offered (its own only if none was), and its
+frames are the frames of every earlier raise followed by its own. -/
+theorem C20_error_shared_object_carries_history {P F : Type} (h : List (List (Step P F)))
+    (r : List (Step P F)) (b : List (List (Step P F))) :
+    ∃ o rest, shows .shared h (r :: b) = o :: rest ∧
+      o.frames = pushes h.flatten ++ pushes r ∧
+      o.pos = (match firstFill h.flatten with
+        | some p => some p
+        | none => firstFill r) := by
+  refine ⟨unwind r (unwind h.flatten ErrObj.fresh),
+    (runRaises .shared (unwind r (unwind h.flatten ErrObj.fresh)) b).2, ?_, ?_, ?_⟩
+  · rw [shows_eq, runRaises_shared_state]
+    simp only [runRaises]
+  · rw [unwind_frames, unwind_frames]
+    simp [ErrObj.fresh]
+  · rw [unwind_pos, unwind_pos]
+    simp only [ErrObj.fresh]
+    cases firstFill h.flatten <;> rfl
+
+/-- **…and that is a difference whenever the history crossed a boundary.** If any earlier raise of the
+process recorded a frame, the first raise of the later program does not show what it shows in a fresh
+process — whatever the programs are. -/
+theorem C20_error_shared_object_differs {P F : Type} (h : List (List (Step P F)))
+    (r : List (Step P F)) (b : List (List (Step P F))) (hne : pushes h.flatten ≠ []) :
+    (shows .shared h (r :: b)).head? ≠ (shows .shared [] (r :: b)).head? := by
+  obtain ⟨o, rest, ho, hf, _⟩ := C20_error_shared_object_carries_history h r b
+  obtain ⟨o', rest', ho', hf', _⟩ := C20_error_shared_object_carries_history [] r b
+  rw [ho, ho']
+  simp only [List.head?_cons, ne_eq, Option.some.injEq]
+  intro heq
+  rw [heq, hf'] at hf
+  simp only [List.flatten_nil, pushes, List.nil_append] at hf
+  have hl := congrArg List.length hf
+  simp only [List.length_append] at hl
+  have : (pushes h.flatten).length = 0 := by omega
+  exact hne (List.length_eq_zero_iff.mp this)
+
+/-- **Negation witness (replayed on the real interpreter by the error stream on a tree that has it):**
+the spread-operator error as one package-level value. Program A meets a bad spread operand at A.php:4
+two boundaries deep and catches it; program B meets one at B.php:3 one boundary deep. With an object
+per raise B shows B.php:3 and its own frame; with the shared object it shows A.php:4 and A's two
+frames before its own. -/
+theorem C20_spread_sentinel_counterexample :
+    let a : List (List (Step (String × Nat) String)) := [[.fill ("A.php", 4), .push "merge_rows", .push "Report::add"]]
+    let b : List (List (Step (String × Nat) String)) := [[.fill ("B.php", 3), .push "widen"]]
+    shows .perRaise a b = [⟨some ("B.php", 3), ["widen"]⟩] ∧
+    shows .shared [] b = [⟨some ("B.php", 3), ["widen"]⟩] ∧
+    shows .shared a b = [⟨some ("A.php", 4), ["merge_rows", "Report::add", "widen"]⟩] ∧
+    shows .shared b b = [⟨some ("B.php", 3), ["widen", "widen"]⟩] := by
   decide
 
 end C20
